@@ -322,6 +322,7 @@ func (c *Ctx) sentinelConversion(f *ssa.Function, cv *ssa.Call, ev ssa.Value, r 
 		return false
 	}
 	for _, bf := range branchFacts(f) {
+		curEnv = bf.A.Env
 		if bf.A.Kind != "const" || !bf.Holds || bf.A.C.Value == nil || bf.A.C.Value.Kind() != constant.String {
 			continue
 		}
